@@ -198,6 +198,7 @@ InitState(env, funcs) ==
    stdin |-> env.stdin, stdinpos |-> 1, files |-> env.files, argi |-> 1, hadFiles |-> FALSE,
    cur |-> [open |-> FALSE, name |-> <<>>, pos |-> 1], readers |-> EmptyFn, inrange |-> {},
    taken |-> 0, nrSet |-> FALSE,        \* ghosts: records taken from the main input; NR assigned by the program
+   noArgVars |-> ("noargvars" \in DOMAIN env) /\ env.noargvars,   \* operands of the form var=value are file names (goawk -E)
    mainStdin |-> FALSE, dashUsed |-> FALSE,   \* ghosts: standard input read by the main loop / through getline < "-"
    cnt |-> EmptyFn]
 
@@ -612,7 +613,7 @@ NextMain(st, n) ==
                  ELSE [found |-> FALSE, line |-> <<>>, st |-> st]
           ELSE LET arg == ToStr(Lookup(ArrGet(st, "ARGV"), IntStr(st.argi), Null))
                    s1 == [st EXCEPT !.argi = @ + 1]
-                   q == AssignSplit(arg)
+                   q == IF st.noArgVars THEN 0 ELSE AssignSplit(arg)
                IN IF q > 0 THEN
                     LET nm == VarNameOf(SubSeq(arg, 1, q - 1))
                     IN IF nm = "" THEN [found |-> FALSE, line |-> <<>>, st |-> Halt(st, "bad")]
